@@ -32,14 +32,14 @@ impl Check for Renaming {
     fn describe(&self, i: usize) -> String {
         let p = &self.progs[i * self.chunk];
         format!(
-            "programs #{}..#{} of the universe under naming strategies fresh / pool of 1, 2, 3 names; first program under the pool of 1:\n{}",
+            "programs #{}..#{} of the universe under naming strategies fresh / pool of 1 and 3 names / named after a type of the binder's own annotation; first program under the pool of 1:\n{}",
             i * self.chunk,
             (i + 1) * self.chunk,
             crate::print::program(&p.body, &p.root, &Cfg { naming: Naming::Pool(1), multiline: true }).0
         )
     }
     fn rule(&self) -> String {
-        format!("every program of the universe ({} programs) printed under 4 naming strategies: all-fresh names, and the smallest-pool strategies with 1, 2 and 3 names where each binder reuses the first pool name that does not capture a free occurrence in its scope (maximal shadowing, including shadowing of unrelated outer binders; the printer carries the reference scoping model: binders scope over tail/body/arm, pattern components bind left to right); oracle: all variants are accepted and each variant's run result equals the reference evaluator's (which never sees names); non-trivial = programs where at least one pool variant differs textually from the fresh variant", self.progs.len())
+        format!("every program of the universe ({} programs) printed under 4 naming strategies: all-fresh names, the smallest-pool strategies with 1 and 3 names where each binder reuses the first pool name that does not capture a free occurrence in its scope (maximal shadowing, including shadowing of unrelated outer binders; pool of 2 is C02's), and a strategy that names a binder after a type mentioned in its own annotation whenever that type name is not used inside the binder's scope (`fn (Int64 : Int64) => ret Int64`: an annotation lies outside the scope of the binder it annotates; the printer carries the reference scoping model: binders scope over tail/body/arm, pattern components bind left to right); oracle: all variants are accepted and each variant's run result equals the reference evaluator's (which never sees names); non-trivial = programs where at least one pool variant differs textually from the fresh variant", self.progs.len())
     }
     fn timeout(&self) -> std::time::Duration {
         std::time::Duration::from_secs(180)
@@ -53,7 +53,7 @@ impl Check for Renaming {
         for prog in &self.progs[a..b] {
             let fresh_text = crate::print::program(&prog.body, &prog.root, &Cfg::default()).0;
             let mut shadowed = false;
-            for naming in [Naming::Fresh, Naming::Pool(1), Naming::Pool(2), Naming::Pool(3)] {
+            for naming in [Naming::Fresh, Naming::Pool(1), Naming::Pool(3), Naming::TypePun] {
                 let cfg = Cfg { naming, multiline: false };
                 let ev = evaluate(scratch, prog, &cfg, true);
                 r = r.count("variants", 1);
